@@ -82,26 +82,42 @@ def catalogue(py4hw, quick, pol=None):
     B = []
     L = py4hw
     pol = pol or probe_policies(py4hw)
+    import common as _common
+    KNOWN = _common.load_known('C08')
     MID, EQW = pol['mid'] or 'mid_a', pol['eqw'] or 'eqw_a'
+    import random as _random
+    mrng = _random.Random(8080)          # per-input widths of the mixed configurations: fixed, so that configurations are stable across runs
+    def mixed(n, lo=1, hi=4): return [mrng.randint(lo, hi) for _ in range(n)]
+    def iws(c): return c['ws'] if 'ws' in c else [c['wi']] * c['n']      # per-input data widths of an n-ary configuration
+    def mid_of(cls, make):
+        """width of the real block's internal Mid wire for a configuration (Nand2 / Nor2 / Nor size it from a port)"""
+        from common import quiet
+        with quiet():
+            hw = py4hw.HWSystem(); d = make(hw)
+        return d._wires['Mid'].getWidth()
 
     # ------------------------------------------------------------------ 2-input gates, Not, Buf, Constant
-    def gate2(cls, mname, sname, mixed):
+    def gate2(cls, mname, sname, mixedw):
         def build(hw, c):
             a, b, r = hw.wire('a', c['wa']), hw.wire('b', c['wb']), hw.wire('r', c['wr'])
             getattr(L, cls)(hw, 'dut', a, b, r); return [a, b], [r]
         def model(c):
             if cls in ('And2', 'Or2'): return lam(2, '[%s %d x0 x1]' % (mname, c['wr']))
             if cls == 'Xor2': return lam(2, '[Xor2_m %s %d %d %d x0 x1]' % (MID, c['wa'], c['wb'], c['wr']))
-            return lam(2, '[%s %d %d x0 x1]' % (mname, c['wa'], c['wr']))
+            return lam(2, '[%s %d %d x0 x1]' % (mname, c['mid'], c['wr']))        # Nand2 / Nor2: the width of the real Mid wire
         def spec(c): return lam(2, '[%s %d x0 x1]' % (sname, c['wr']))
         cfgs = [dict(wa=w, wb=w, wr=w) for w in (1, 2, 3, 4, 8, 16, 33, 64)]
-        if mixed:   # the output may be narrower / wider than the operands: result = (a op b) mod 2^wr
-            cfgs += [dict(wa=3, wb=2, wr=4), dict(wa=2, wb=3, wr=1), dict(wa=1, wb=4, wr=3)]
-        else:       # gates with internal wires of a's width: r no wider than a
-            cfgs += [dict(wa=3, wb=3, wr=2), dict(wa=4, wb=2, wr=3)]
-        if cls == 'Xor2':      # any mix of widths (legal since the repair c94f404; a tree whose Xor2 has a's-width internals fails here with a concrete input)
-            cfgs += [dict(wa=1, wb=1, wr=2), dict(wa=1, wb=2, wr=2), dict(wa=2, wb=3, wr=4), dict(wa=2, wb=1, wr=3), dict(wa=1, wb=3, wr=2), dict(wa=8, wb=3, wr=12)]
+        # operands and result of three different widths (the result is (a op b) on the zero-extended operands, cut to r)
+        cfgs += [dict(wa=3, wb=2, wr=4), dict(wa=2, wb=3, wr=1), dict(wa=1, wb=4, wr=3), dict(wa=3, wb=3, wr=2), dict(wa=4, wb=2, wr=3),
+                 dict(wa=1, wb=1, wr=2), dict(wa=1, wb=2, wr=2), dict(wa=2, wb=3, wr=4), dict(wa=2, wb=1, wr=3), dict(wa=1, wb=3, wr=2), dict(wa=8, wb=3, wr=12)]
+        cfgs += [dict(wa=x, wb=y, wr=z) for x, y, z in (mixed(3) for _ in range(8))]
+        if cls in ('Nand2', 'Nor2'):
+            for c in cfgs:
+                c['mid'] = mid_of(cls, lambda hw, c=c: getattr(L, cls)(hw, 'dut', hw.wire('a', c['wa']), hw.wire('b', c['wb']), hw.wire('r', c['wr'])))
+        if cls == 'Nor2':       # known finding C08-nor-mid-width: a Mid narrower than r AND than an operand loses operand bits
+            cfgs = [c for c in cfgs if c['mid'] >= c['wr'] or c['mid'] >= max(c['wa'], c['wb']) or nor_fixed]
         B.append(Block(cls, build, model, spec, lambda c: [c['wa'], c['wb']], cfgs))
+    nor_fixed = not any(k['id'] == 'C08-nor-mid-width' and k.get('status') == 'known' for k in KNOWN)
     gate2('And2', 'And2_m', 'and2_spec', True)
     gate2('Or2', 'Or2_m', 'or2_spec', True)
     gate2('Xor2', 'Xor2_m', 'xor2_spec', False)
@@ -128,19 +144,24 @@ def catalogue(py4hw, quick, pol=None):
     # ------------------------------------------------------------------ n-ary gates
     def nary(cls, mfun, sname, min_n):
         def build(hw, c):
-            ins = wires(hw, 'i', [c['wi']] * c['n']); r = hw.wire('r', c['w'])
+            ins = wires(hw, 'i', iws(c)); r = hw.wire('r', c['w'])
             getattr(L, cls)(hw, 'dut', ins, r); return ins, [r]
         cfgs = [dict(n=n, wi=w, w=w) for n in range(min_n, 6) for w in (1, 2, 3)]
         cfgs += [dict(n=7, wi=5, w=5), dict(n=9, wi=1, w=1), dict(n=3, wi=32, w=32), dict(n=12, wi=8, w=8), dict(n=4, wi=4, w=3), dict(n=3, wi=3, w=2)]
-        if cls in ('And', 'Or'): cfgs += [dict(n=3, wi=2, w=4), dict(n=1, wi=2, w=4), dict(n=1, wi=4, w=2)]
-        if cls == 'Xor': cfgs += [dict(n=3, wi=2, w=4), dict(n=2, wi=1, w=3), dict(n=4, wi=1, w=2)]
-        if not quick: cfgs += [dict(n=n, wi=w, w=w) for n in (6, 10, 17, 33) for w in (1, 2, 6)]
-        B.append(Block(cls, build, lambda c: '(fun l : list Z => [%s l])' % mfun(c), lambda c: '(fun l : list Z => [%s %d l])' % (sname, c['w']),
-                       lambda c: [c['wi']] * c['n'], cfgs))
-    nary('And', lambda c: 'And_m %d' % c['w'], 'and_spec', 1)
-    nary('Or', lambda c: 'Or_m %d' % c['w'], 'or_spec', 1)
-    nary('Xor', lambda c: 'Xor_m %s %d %d' % (MID, c['wi'], c['w']), 'xor_spec', 2)
-    nary('Nor', lambda c: 'Nor_m %d %d' % (c['wi'], c['w']), 'nor_spec', 1)
+        cfgs += [dict(n=3, wi=2, w=4), dict(n=2, wi=1, w=3), dict(n=4, wi=1, w=2), dict(n=1, wi=2, w=4), dict(n=1, wi=4, w=2)][:(3 if cls == 'Xor' else 5)]
+        # every input of its own width, result wider / narrower than some of them
+        cfgs += [dict(n=n, ws=mixed(n), w=mrng.randint(1, 5)) for n in (2, 2, 3, 3, 4, 4, 5, 6) if n >= min_n]
+        cfgs += [dict(n=3, ws=[1, 3, 2], w=3), dict(n=2, ws=[1, 3], w=2), dict(n=4, ws=[4, 8, 8, 8], w=8), dict(n=3, ws=[16, 3, 40], w=24)]
+        if not quick: cfgs += [dict(n=n, wi=w, w=w) for n in (6, 10, 17, 33) for w in (1, 2, 6)] + [dict(n=n, ws=mixed(n, 1, 9), w=mrng.randint(1, 9)) for n in (7, 9, 12)]
+        if cls == 'Nor':
+            for c in cfgs:
+                c['mid'] = mid_of(cls, lambda hw, c=c: L.Nor(hw, 'dut', wires(hw, 'i', iws(c)), hw.wire('r', c['w'])))
+            cfgs = [c for c in cfgs if c['mid'] >= c['w'] or c['mid'] >= max(iws(c)) or nor_fixed]       # known finding C08-nor-mid-width otherwise
+        B.append(Block(cls, build, lambda c: '(fun l : list Z => [%s])' % mfun(c), lambda c: '(fun l : list Z => [%s %d l])' % (sname, c['w']), iws, cfgs))
+    nary('And', lambda c: 'And_m %d l' % c['w'], 'and_spec', 1)
+    nary('Or', lambda c: 'Or_m %d l' % c['w'], 'or_spec', 1)
+    nary('Xor', lambda c: 'XorW_m %s %d (combine %s l)' % (MID, c['w'], zlist(iws(c))), 'xor_spec', 2)
+    nary('Nor', lambda c: 'Nor_m %d %d l' % (c['mid'], c['w']), 'nor_spec', 1)
 
     def redbits(cls, mname, sfun):
         def build(hw, c):
@@ -204,16 +225,21 @@ def catalogue(py4hw, quick, pol=None):
 
     # ------------------------------------------------------------------ selection
     def b_mux2(hw, c):
-        s, a, b, r = hw.wire('s', c['ws']), hw.wire('a', c['w']), hw.wire('b', c['w']), hw.wire('r', c['w']); L.Mux2(hw, 'dut', s, a, b, r); return [s, a, b], [r]
+        s, a, b, r = hw.wire('s', c['ws']), hw.wire('a', c.get('w0', c['w'])), hw.wire('b', c.get('w1', c['w'])), hw.wire('r', c['w']); L.Mux2(hw, 'dut', s, a, b, r); return [s, a, b], [r]
     B.append(Block('Mux2', b_mux2, lambda c: lam(3, '[Mux2_m %d x0 x1 x2]' % c['w']), lambda c: lam(3, '[mux2_spec %d x0 x1 x2]' % c['w']),
-                   lambda c: [c['ws'], c['w'], c['w']], [dict(ws=1, w=w) for w in (1, 2, 3, 8, 40)] + [dict(ws=2, w=2), dict(ws=3, w=1)]))
+                   lambda c: [c['ws'], c.get('w0', c['w']), c.get('w1', c['w'])], [dict(ws=1, w=w) for w in (1, 2, 3, 8, 40)] + [dict(ws=2, w=2), dict(ws=3, w=1)] +
+                   [dict(ws=1, w0=x, w1=y, w=z) for x, y, z in (mixed(3) for _ in range(6))] + [dict(ws=1, w0=4, w1=8, w=8), dict(ws=1, w0=8, w1=4, w=6)]))
 
+    def mux_ws(c): return c['ws'] if 'ws' in c else [c['w']] * (1 << c['k'])
     def b_mux(hw, c):
-        s = hw.wire('s', c['k']); ins = wires(hw, 'i', [c['w']] * (1 << c['k'])); r = hw.wire('r', c['w']); L.Mux(hw, 'dut', s, ins, r); return [s] + ins, [r]
+        s = hw.wire('s', c['k']); ins = wires(hw, 'i', mux_ws(c)); r = hw.wire('r', c['w']); L.Mux(hw, 'dut', s, ins, r); return [s] + ins, [r]
     B.append(Block('Mux', b_mux, lambda c: '(fun l : list Z => [Mux_m %d %d (hd 0 l) (tl l)])' % (c['k'], c['w']),
-                   lambda c: '(fun l : list Z => [mux_spec %d (hd 0 l) (tl l)])' % c['w'], lambda c: [c['k']] + [c['w']] * (1 << c['k']),
+                   lambda c: '(fun l : list Z => [mux_spec %d (hd 0 l) (tl l)])' % c['w'], lambda c: [c['k']] + mux_ws(c),
                    [dict(k=k, w=w) for k in (1, 2, 3) for w in (1, 2, 3)] + [dict(k=4, w=1), dict(k=4, w=5), dict(k=5, w=2), dict(k=2, w=32)] +
-                   ([] if quick else [dict(k=6, w=3), dict(k=7, w=1)])))
+                   # data inputs of different widths (input 0 narrower / wider than the others), result wider / narrower than some inputs
+                   [dict(k=2, ws=[4, 8, 8, 8], w=8), dict(k=2, ws=[8, 4, 2, 6], w=8), dict(k=1, ws=[2, 5], w=5), dict(k=3, ws=[1, 2, 3, 4, 4, 3, 2, 1], w=4)] +
+                   [dict(k=k, ws=mixed(1 << k), w=mrng.randint(1, 5)) for k in (1, 2, 2, 2, 3, 3, 4)] +
+                   ([] if quick else [dict(k=6, w=3), dict(k=7, w=1), dict(k=5, ws=mixed(32, 1, 9), w=9)])))
 
     def b_decoder(hw, c):
         a = hw.wire('a', c['wa']); bs = wires(hw, 'b', [1] * c['n']); L.Decoder(hw, 'dut', a, bs); return [a], bs
@@ -227,30 +253,35 @@ def catalogue(py4hw, quick, pol=None):
 
     def onehot(cls):
         def build(hw, c):
-            ss = wires(hw, 's', [1] * c['n']); ins = wires(hw, 'i', [c['wi']] * c['n']); r = hw.wire('r', c['w'])
+            ss = wires(hw, 's', [1] * c['n']); ins = wires(hw, 'i', iws(c)); r = hw.wire('r', c['w'])
             getattr(L, cls)(hw, 'dut', ss, ins, r); return ss + ins, [r]
-        B.append(Block(cls, build, lambda c: '(fun l : list Z => [OneHotMux_m %d %d (firstn %d l) (skipn %d l)])' % (c['wi'], c['w'], c['n'], c['n']),
+        B.append(Block(cls, build, lambda c: '(fun l : list Z => [OneHotMuxW_m %d (firstn %d l) (combine %s (skipn %d l))])' % (c['w'], c['n'], zlist(iws(c)), c['n']),
                        lambda c: '(fun l : list Z => [onehot_mux_spec %d (firstn %d l) (skipn %d l)])' % (c['w'], c['n'], c['n']),
-                       lambda c: [1] * c['n'] + [c['wi']] * c['n'],
-                       [dict(n=n, wi=w, w=w) for n in (1, 2, 3, 4, 5) for w in (1, 2, 3)] + [dict(n=6, wi=8, w=8), dict(n=3, wi=32, w=32), dict(n=9, wi=2, w=2)]))
+                       lambda c: [1] * c['n'] + iws(c),
+                       [dict(n=n, wi=w, w=w) for n in (1, 2, 3, 4, 5) for w in (1, 2, 3)] + [dict(n=6, wi=8, w=8), dict(n=3, wi=32, w=32), dict(n=9, wi=2, w=2)] +
+                       [dict(n=n, ws=mixed(n), w=mrng.randint(1, 5)) for n in (2, 2, 3, 3, 4, 5)] + [dict(n=3, ws=[2, 8, 4], w=8), dict(n=2, ws=[6, 3], w=4)]))
     onehot('Select')
     onehot('OneHotMux')
 
+    def ohd_wos(c): return c['wos'] if 'wos' in c else [c['wa']] * c['n']
     def b_ohdemux(hw, c):
-        ss = wires(hw, 's', [1] * c['n']); a = hw.wire('a', c['wa']); outs = wires(hw, 'o', [c['wa']] * c['n'])
+        ss = wires(hw, 's', [1] * c['n']); a = hw.wire('a', c['wa']); outs = wires(hw, 'o', ohd_wos(c))
         L.OneHotDemux(hw, 'dut', ss, a, outs); return ss + [a], outs
-    B.append(Block('OneHotDemux', b_ohdemux, lambda c: '(fun l : list Z => OneHotDemux_m %d %d (nth %d l 0) (firstn %d l))' % (c['wa'], c['wa'], c['n'], c['n']),
-                   lambda c: '(fun l : list Z => onehot_demux_spec %d (nth %d l 0) (firstn %d l))' % (c['wa'], c['n'], c['n']),
-                   lambda c: [1] * c['n'] + [c['wa']], [dict(n=n, wa=w) for n in (1, 2, 3, 4, 5) for w in (1, 2, 3)] + [dict(n=7, wa=9)]))
+    B.append(Block('OneHotDemux', b_ohdemux, lambda c: '(fun l : list Z => OneHotDemuxW_m %d %s (nth %d l 0) (firstn %d l))' % (c['wa'], zlist(ohd_wos(c)), c['n'], c['n']),
+                   lambda c: '(fun l : list Z => map (fun p => if snd p =? 0 then 0 else nth %d l 0 mod 2 ^ fst p) (combine %s (firstn %d l)))' % (c['n'], zlist(ohd_wos(c)), c['n']),
+                   lambda c: [1] * c['n'] + [c['wa']], [dict(n=n, wa=w) for n in (1, 2, 3, 4, 5) for w in (1, 2, 3)] + [dict(n=7, wa=9)] +
+                   [dict(n=n, wa=mrng.randint(1, 5), wos=mixed(n, 1, 6)) for n in (1, 2, 3, 3, 4)]))       # outputs wider / narrower than a
 
+    def sd_ws(c): return c['ws'] if 'ws' in c else [c['w']] * c['n']
     def b_seldef(hw, c):
-        ss = wires(hw, 's', [1] * c['n']); ins = wires(hw, 'i', [c['w']] * c['n']); d = hw.wire('d', c['w']); r = hw.wire('r', c['w'])
+        ss = wires(hw, 's', [1] * c['n']); ins = wires(hw, 'i', sd_ws(c)); d = hw.wire('d', c.get('wd', c['w'])); r = hw.wire('r', c['w'])
         L.SelectDefault(hw, 'dut', ss, ins, d, r); return ss + ins + [d], [r]
     B.append(Block('SelectDefault', b_seldef,
                    lambda c: '(fun l : list Z => [SelectDefault_m %d (firstn %d l) (firstn %d (skipn %d l)) (nth %d l 0)])' % (c['w'], c['n'], c['n'], c['n'], 2 * c['n']),
                    lambda c: '(fun l : list Z => [select_default_spec %d (firstn %d l) (firstn %d (skipn %d l)) (nth %d l 0)])' % (c['w'], c['n'], c['n'], c['n'], 2 * c['n']),
-                   lambda c: [1] * c['n'] + [c['w']] * c['n'] + [c['w']],
-                   [dict(n=n, w=w) for n in (1, 2, 3, 4) for w in (1, 2, 3)] + [dict(n=5, w=1), dict(n=7, w=8), dict(n=3, w=32)]))
+                   lambda c: [1] * c['n'] + sd_ws(c) + [c.get('wd', c['w'])],
+                   [dict(n=n, w=w) for n in (1, 2, 3, 4) for w in (1, 2, 3)] + [dict(n=5, w=1), dict(n=7, w=8), dict(n=3, w=32)] +
+                   [dict(n=n, ws=mixed(n), wd=mrng.randint(1, 5), w=mrng.randint(1, 5)) for n in (1, 2, 2, 3, 3, 4)] + [dict(n=3, ws=[2, 8, 8], wd=4, w=8)]))
 
     def b_prio(hw, c):
         a = wires(hw, 'a', [1] * c['n']); r = wires(hw, 'r', [1] * c['n'])
@@ -292,9 +323,11 @@ def catalogue(py4hw, quick, pol=None):
                    lambda c: [c['w'], c.get('wb', c['w'])], eq_cfgs))
 
     def b_anyeq(hw, c):
-        ins = wires(hw, 'i', [c['w']] * c['n']); r = hw.wire('r', 1); L.AnyEqual(hw, 'dut', ins, r); return ins, [r]
-    B.append(Block('AnyEqual', b_anyeq, lambda c: '(fun l : list Z => [AnyEqual_m %s %s %d 1 l])' % (MID, EQW, c['w']), lambda c: '(fun l : list Z => [any_equal_spec l])',
-                   lambda c: [c['w']] * c['n'], [dict(n=n, w=w) for n in (2, 3, 4) for w in (1, 2, 3)] + [dict(n=5, w=2), dict(n=3, w=16), dict(n=6, w=4)]))
+        ins = wires(hw, 'i', ae_ws(c)); r = hw.wire('r', 1); L.AnyEqual(hw, 'dut', ins, r); return ins, [r]
+    def ae_ws(c): return c['ws'] if 'ws' in c else [c['w']] * c['n']
+    B.append(Block('AnyEqual', b_anyeq, lambda c: '(fun l : list Z => [AnyEqualW_m %s %s 1 (combine %s l)])' % (MID, EQW, zlist(ae_ws(c))), lambda c: '(fun l : list Z => [any_equal_spec l])',
+                   ae_ws, [dict(n=n, w=w) for n in (2, 3, 4) for w in (1, 2, 3)] + [dict(n=5, w=2), dict(n=3, w=16), dict(n=6, w=4)] +
+                   [dict(n=n, ws=mixed(n)) for n in (2, 2, 3, 3, 4)] + [dict(n=3, ws=[1, 3, 2])]))
 
     CW = (1, 2, 3, 4, 5, 8, 16, 32, 64)
 
@@ -311,17 +344,19 @@ def catalogue(py4hw, quick, pol=None):
 
     def minmax(cls, mname, sfun):
         def build(hw, c):
-            a, b, r = hw.wire('a', c['w']), hw.wire('b', c['w']), hw.wire('r', c['w']); getattr(L, cls)(hw, 'dut', a, b, r); return [a, b], [r]
-        B.append(Block(cls, build, lambda c: lam(2, '[%s %d %d x0 x1]' % (mname if not mname.startswith('Signed') else mname + ' ' + MID, c['w'], c['w'])), lambda c: lam(2, '[%s]' % sfun(c)),
-                       lambda c: [c['w'], c['w']], [dict(w=w) for w in CW]))
-    minmax('Max2', 'Max2_m', lambda c: 'max2_spec %d x0 x1' % c['w'])
-    minmax('Min2', 'Min2_m', lambda c: 'min2_spec %d x0 x1' % c['w'])
-    minmax('SignedMax2', 'SignedMax2_m', lambda c: 'smax2_spec %d %d x0 x1' % (c['w'], c['w']))
-    minmax('SignedMin2', 'SignedMin2_m', lambda c: 'smin2_spec %d %d x0 x1' % (c['w'], c['w']))
+            a, b, r = hw.wire('a', c['w']), hw.wire('b', c['w']), hw.wire('r', c.get('wr', c['w'])); getattr(L, cls)(hw, 'dut', a, b, r); return [a, b], [r]
+        B.append(Block(cls, build, lambda c: lam(2, '[%s %d %d x0 x1]' % (mname if not mname.startswith('Signed') else mname + ' ' + MID, c['w'], c.get('wr', c['w']))),
+                       lambda c: lam(2, '[%s]' % sfun(c)), lambda c: [c['w'], c['w']],
+                       [dict(w=w) for w in CW] + [dict(w=3, wr=5), dict(w=4, wr=2), dict(w=8, wr=12), dict(w=8, wr=5)]))      # result wider / narrower than the operands
+    minmax('Max2', 'Max2_m', lambda c: 'max2_spec %d x0 x1' % c.get('wr', c['w']))
+    minmax('Min2', 'Min2_m', lambda c: 'min2_spec %d x0 x1' % c.get('wr', c['w']))
+    minmax('SignedMax2', 'SignedMax2_m', lambda c: 'smax2_spec %d %d x0 x1' % (c['w'], c.get('wr', c['w'])))
+    minmax('SignedMin2', 'SignedMin2_m', lambda c: 'smin2_spec %d %d x0 x1' % (c['w'], c.get('wr', c['w'])))
 
     def b_swap(hw, c):
-        a, b, s = hw.wire('a', c['w']), hw.wire('b', c['w']), hw.wire('s', 1); ra, rb = hw.wire('ra', c['w']), hw.wire('rb', c['w'])
+        a, b, s = hw.wire('a', c.get('wa', c['w'])), hw.wire('b', c.get('wb', c['w'])), hw.wire('s', 1); ra, rb = hw.wire('ra', c['w']), hw.wire('rb', c.get('wrb', c['w']))
         L.Swap(hw, 'dut', a, b, s, ra, rb); return [a, b, s], [ra, rb]
-    B.append(Block('Swap', b_swap, lambda c: lam(3, t2('Swap_m %d %d x0 x1 x2' % (c['w'], c['w']))), lambda c: lam(3, t2('swap_spec %d %d x0 x1 x2' % (c['w'], c['w']))),
-                   lambda c: [c['w'], c['w'], 1], [dict(w=w) for w in (1, 2, 3, 8, 32)]))
+    B.append(Block('Swap', b_swap, lambda c: lam(3, t2('Swap_m %d %d x0 x1 x2' % (c['w'], c.get('wrb', c['w'])))), lambda c: lam(3, t2('swap_spec %d %d x0 x1 x2' % (c['w'], c.get('wrb', c['w'])))),
+                   lambda c: [c.get('wa', c['w']), c.get('wb', c['w']), 1], [dict(w=w) for w in (1, 2, 3, 8, 32)] +
+                   [dict(wa=x, wb=y, w=z, wrb=u) for x, y, z, u in (mixed(4, 1, 5) for _ in range(6))]))
     return B
